@@ -19,12 +19,15 @@ ROOT = Path(__file__).resolve().parent.parent
 
 
 def _reexec_with_env():
-    """Own the interpreter-level nondeterminism: hash seed, bytecode files."""
-    want = {"PYTHONHASHSEED": "0", "PYTHONDONTWRITEBYTECODE": "1", "MXLPY_VERIF": "1", "TQDM_DISABLE": "1"}
-    if all(os.environ.get(k) == v for k, v in want.items()):
+    """Own the interpreter-level nondeterminism (hash seed) - and nothing else: the library has to be run the way its
+    users run it. In particular bytecode caching stays ON (PYTHONDONTWRITEBYTECODE is removed if the caller set it):
+    with it switched off, a stale-bytecode defect of sbml.read was invisible for a long time (DESIGN.md, Appendix B)."""
+    want = {"PYTHONHASHSEED": "0", "MXLPY_VERIF": "1", "TQDM_DISABLE": "1"}
+    if all(os.environ.get(k) == v for k, v in want.items()) and not os.environ.get("PYTHONDONTWRITEBYTECODE"):
         return
     env = dict(os.environ)
     env.update(want)
+    env.pop("PYTHONDONTWRITEBYTECODE", None)
     os.execve(sys.executable, [sys.executable, "-m", "mc.run", *sys.argv[1:]], env)
 
 
